@@ -1,4 +1,357 @@
 import Bardolph.Model.Snapshot
+import Bardolph.Props.C15
 /-! # C18 — replaying a captured snapshot script restores the captured light state (theorems below) -/
 namespace Bardolph
+namespace C18
+open Vm Sem SemSteps Snapshot
+
+/-! ## the devices
+
+What a device keeps: a plain light its colour and power, a multizone light one colour per
+zone, a matrix light one colour per cell.  `applyEvent` is what the simulated devices (and
+the real ones) do on receiving the message. -/
+
+inductive Dev where
+  | plain (color : List Int) (power : Int)
+  | multizone (zones : List (List Int))
+  | matrix (cells : List (List Int))
+  deriving Repr, DecidableEq, Inhabited
+
+/-- the devices on the network, by light name -/
+abbrev DeviceState := String → Option Dev
+
+def upd (D : DeviceState) (n : String) (f : Dev → Dev) : DeviceState :=
+  fun m => if m = n then (D m).map f else D m
+
+def Dev.setColor (c : List Int) : Dev → Dev
+  | .plain _ p => .plain c p
+  | .multizone z => .multizone (z.map fun _ => c)
+  | .matrix cells => .matrix (cells.map fun _ => c)
+
+def Dev.setPower (p : Int) : Dev → Dev
+  | .plain c _ => .plain c p
+  | d => d
+
+def Dev.setZones (a b : Nat) (c : List Int) : Dev → Dev
+  | .multizone z => .multizone (C15.applyZones z a b c)
+  | d => d
+
+def Dev.setTile (cells : List (List Int)) : Dev → Dev
+  | .matrix _ => .matrix cells
+  | d => d
+
+def applyEvent (e : Event) (D : DeviceState) : DeviceState :=
+  match e with
+  | .setColor n c _ => upd D n (Dev.setColor c)
+  | .setPower n p _ => upd D n (Dev.setPower p)
+  | .setZones n a b c _ => upd D n (Dev.setZones a.toNat b.toNat c)
+  | .setTile n cells _ _ _ => upd D n (Dev.setTile cells)
+  | .allColor c _ => fun m => (D m).map (Dev.setColor c)
+  | .allPower p _ => fun m => (D m).map (Dev.setPower (if p != 0 then 65535 else 0))
+  | _ => D
+
+/-- a VM trace (newest event first) applied in the order the events happened -/
+def applyTrace (trace : List Event) (D : DeviceState) : DeviceState := trace.foldr applyEvent D
+
+/-- the light a message is addressed to -/
+def target : Event → Option String
+  | .setColor n _ _ | .setPower n _ _ | .setZones n _ _ _ _ | .setTile n _ _ _ _ => some n
+  | _ => none
+
+theorem applyTrace_append (a b : List Event) (D : DeviceState) :
+    applyTrace (a ++ b) D = applyTrace a (applyTrace b D) := by
+  simp [applyTrace, List.foldr_append]
+
+/-- **frame.**  Messages addressed to light `n` leave every other device as it is. -/
+theorem applyTrace_frame (n m : String) (hne : m ≠ n) :
+    ∀ (evs : List Event), (∀ e ∈ evs, target e = some n) → ∀ D, applyTrace evs D m = D m := by
+  intro evs
+  induction evs with
+  | nil => intro _ D; rfl
+  | cons e evs ih =>
+    intro h D
+    have he := h e (by simp)
+    have ih' := ih (fun x hx => h x (by simp [hx])) D
+    simp only [applyTrace, List.foldr_cons] at ih' ⊢
+    cases e <;> simp only [target, Option.some.injEq, reduceCtorEq] at he <;> subst he <;>
+      simp [applyEvent, upd, hne, ih']
+
+/-! ## the VM side: what `on`/`off`/`set` send in raw units with no duration -/
+
+/-- raw units, no duration, no pending time, still running -/
+structure Ready (vm : Vm.State) : Prop where
+  mode : vm.regs .unitMode = .mode .raw
+  dur : numOf (vm.regs .duration) = some 0
+  time : numOf (vm.regs .time) = some 0
+  run : vm.status = .running
+
+theorem Ready.setReg {vm : Vm.State} (h : Ready vm) (r : Reg) (v : Val) (h1 : r ≠ .unitMode)
+    (h2 : r ≠ .duration) (h3 : r ≠ .time) : Ready (vm.setReg r v) := by
+  obtain ⟨a, b, c, d⟩ := h
+  constructor <;> simp [State.setReg, Ne.symm h1, Ne.symm h2, Ne.symm h3, *]
+
+theorem Ready.mode_raw {vm : Vm.State} (h : Ready vm) : vm.mode = .raw := by
+  simp [State.mode, h.mode]
+
+theorem Ready.dur_wire {vm : Vm.State} (h : Ready vm) :
+    (vm.asRawTime (vm.regs .duration)).bind wire32 = some 0 := by
+  simp [State.asRawTime, h.mode_raw, wire32, h.dur, param32_zero]
+
+/-- the colour registers hold the raw colour `c` -/
+def HoldsColor (vm : Vm.State) (c : List Int) : Prop :=
+  ∃ h s b k, c = [h, s, b, k] ∧ vm.regs .hue = .int h ∧ vm.regs .saturation = .int s ∧
+    vm.regs .brightness = .int b ∧ vm.regs .kelvin = .int k
+
+def InRange (c : List Int) : Prop := c.length = 4 ∧ ∀ x ∈ c, 0 ≤ x ∧ x ≤ 65535
+
+theorem getColor_of_holds {vm : Vm.State} {c : List Int} (h : Ready vm) (hc : HoldsColor vm c) :
+    vm.getColor = c.map Val.int := by
+  obtain ⟨a, b, d, e, rfl, h1, h2, h3, h4⟩ := hc
+  simp [State.getColor, h.mode_raw, h1, h2, h3, h4]
+
+theorem color_wire {vm : Vm.State} {c : List Int} (h : Ready vm) (hc : HoldsColor vm c)
+    (hr : InRange c) : (vm.asRawColor vm.getColor).bind wireColor = some c := by
+  rw [getColor_of_holds h hc]
+  simp [State.asRawColor, h.mode_raw, convert, wireColor_ints c hr.2]
+
+/-- two VM states see the same lights (names and kinds; colours and power may differ) -/
+def SameDir (a b : Vm.State) : Prop :=
+  b.lights.map (fun l => (l.name, l.kind)) = a.lights.map (fun l => (l.name, l.kind))
+
+theorem SameDir.rfl' {a : Vm.State} : SameDir a a := rfl
+theorem SameDir.trans {a b c : Vm.State} (h1 : SameDir a b) (h2 : SameDir b c) : SameDir a c :=
+  Eq.trans h2 h1
+
+theorem sameDir_of_lights {a b : Vm.State} (h : b.lights = a.lights) : SameDir a b := by
+  simp [SameDir, h]
+
+theorem sameDir_updLight (a : Vm.State) (n : String) (f : Light → Light)
+    (hf : ∀ l, (f l).name = l.name ∧ (f l).kind = l.kind) : SameDir a (a.updLight n f) := by
+  simp only [SameDir, State.updLight, List.map_map]
+  apply List.map_congr_left
+  intro l _
+  by_cases h : l.name = n <;> simp [h, hf l]
+
+/-- the light called `n` and its kind -/
+def HasKind (vm : Vm.State) (n : String) (k : LightKind) : Prop :=
+  ∃ l, vm.light? (.str n) = some l ∧ l.kind = k
+
+theorem light?_name {vm : Vm.State} {n : String} {l : Light} (h : vm.light? (.str n) = some l) :
+    l.name = n := by
+  have := List.find?_some h
+  simpa using this
+
+theorem HasKind.of_sameDir {a b : Vm.State} (h : SameDir a b) {n : String} {k : LightKind}
+    (hk : HasKind a n k) : HasKind b n k := by
+  obtain ⟨l, hl, hkind⟩ := hk
+  have key : ∀ (ls : List Light),
+      (ls.find? (·.name == n)).map (fun l => (l.name, l.kind)) =
+        (ls.map fun l => (l.name, l.kind)).find? (·.1 == n) := by
+    intro ls
+    rw [List.find?_map]
+    rfl
+  have h1 := key a.lights
+  have h2 := key b.lights
+  rw [h] at h2
+  simp only [State.light?] at hl
+  rw [hl] at h1
+  rw [← h1] at h2
+  simp only [Option.map_some, Option.map_eq_some_iff] at h2
+  obtain ⟨l', hl', heq⟩ := h2
+  simp only [Prod.mk.injEq] at heq
+  exact ⟨l', by simpa [State.light?] using hl', by rw [heq.2, hkind]⟩
+
+theorem doPower_light (vm : Vm.State) (n : String) (k : LightKind)
+    (hop : vm.regs .operand = .operand .light) (hname : vm.regs .name = .str n)
+    (hk : HasKind vm n k) (hr : Ready vm) :
+    vm.doPower = (vm.emit (.setPower n vm.powerLevel 0)).updLight n
+      fun l => { l with power := vm.powerLevel } := by
+  obtain ⟨l, hl, _⟩ := hk
+  have hn := light?_name hl
+  have hat : vm.asRawTime (vm.regs .duration) = some (vm.regs .duration) := by
+    simp [State.asRawTime, hr.mode_raw]
+  have hw : wire32 (vm.regs .duration) = some 0 := by simp [wire32, hr.dur, param32_zero]
+  simp [State.doPower, hop, hname, hl, State.powerMultiple, hat, hn, hr.run, State.sendPower, hw]
+
+theorem doColor_light (vm : Vm.State) (n : String) (k : LightKind) (c : List Int)
+    (hop : vm.regs .operand = .operand .light) (hname : vm.regs .name = .str n)
+    (hk : HasKind vm n k) (hr : Ready vm) (hc : HoldsColor vm c) (hin : InRange c) :
+    vm.doColor = (vm.emit (.setColor n c 0)).updLight n fun l => { l with color := c } := by
+  obtain ⟨l, hl, _⟩ := hk
+  have hn := light?_name hl
+  simp only [State.doColor, hop, hname, hl, hn]
+  exact C15.colorMultiple_single vm n c 0 hr.run (color_wire hr hc hin) hr.dur_wire
+
+/-! ## the script, statement by statement -/
+
+/-- from `s` to `s'`: still in raw units with nothing pending, the same lights, and exactly
+the events `evs` (newest first) sent -/
+structure Adds (s s' : S) (evs : List Event) : Prop where
+  ready : Ready s'.vm
+  dir : SameDir s.vm s'.vm
+  trace : s'.vm.trace = evs ++ s.vm.trace
+
+theorem Adds.trans {s s' s'' : S} {e1 e2 : List Event} (h1 : Adds s s' e1) (h2 : Adds s' s'' e2) :
+    Adds s s'' (e2 ++ e1) :=
+  ⟨h2.ready, h1.dir.trans h2.dir, by rw [h2.trace, h1.trace, List.append_assoc]⟩
+
+/-- the four `hue … saturation … brightness … kelvin …` settings -/
+def loadColor (s : S) (c : List Int) : S :=
+  ([Reg.hue, .saturation, .brightness, .kelvin].zip c).foldl
+    (fun st (rv : Reg × Int) => st.setReg rv.1 (.int rv.2)) s
+
+theorem settings_run (c : List Int) (s : S) : RunsTo 2 (settingsAst c) s (loadColor s c) := by
+  unfold settingsAst loadColor
+  generalize [Reg.hue, Reg.saturation, Reg.brightness, Reg.kelvin].zip c = pairs
+  induction pairs generalizing s with
+  | nil => exact RunsTo.nil 2 s
+  | cons rv rest ih =>
+    obtain ⟨r, v⟩ := rv
+    simp only [List.map_cons, List.foldl_cons]
+    have h1 : RunsTo 2 [Stmt.setReg r (Snapshot.lit v)] s (s.setReg r (.int v)) := by
+      apply RunsTo.single
+      intro f hf
+      obtain ⟨g, rfl⟩ : ∃ g, f = g + 2 := ⟨f - 2, by omega⟩
+      exact exec_setReg_lit g r (.int v) s
+    exact RunsTo.append h1 (ih (s.setReg r (.int v)))
+
+theorem length4 {c : List Int} (h : c.length = 4) : ∃ a b d e, c = [a, b, d, e] := by
+  match c, h with
+  | [a, b, d, e], _ => exact ⟨a, b, d, e, rfl⟩
+
+theorem loadColor_vm (s : S) (a b d e : Int) :
+    (loadColor s [a, b, d, e]).vm =
+      (((s.vm.setReg .hue (.int a)).setReg .saturation (.int b)).setReg .brightness (.int d)).setReg
+        .kelvin (.int e) := rfl
+
+theorem loadColor_ready {s : S} {c : List Int} (hc : c.length = 4) (h : Ready s.vm) :
+    Ready (loadColor s c).vm := by
+  obtain ⟨a, b, d, e, rfl⟩ := length4 hc
+  rw [loadColor_vm]
+  exact (((h.setReg _ _ (by decide) (by decide) (by decide)).setReg _ _ (by decide) (by decide)
+    (by decide)).setReg _ _ (by decide) (by decide) (by decide)).setReg _ _ (by decide)
+    (by decide) (by decide)
+
+theorem loadColor_holds {s : S} {c : List Int} (hc : c.length = 4) :
+    HoldsColor (loadColor s c).vm c := by
+  obtain ⟨a, b, d, e, rfl⟩ := length4 hc
+  rw [loadColor_vm]
+  exact ⟨a, b, d, e, rfl, by simp [State.setReg], by simp [State.setReg], by simp [State.setReg],
+    by simp [State.setReg]⟩
+
+theorem loadColor_adds {s : S} {c : List Int} (hc : c.length = 4) (h : Ready s.vm) :
+    Adds s (loadColor s c) [] := by
+  refine ⟨loadColor_ready hc h, ?_, ?_⟩
+  · obtain ⟨a, b, d, e, rfl⟩ := length4 hc
+    exact sameDir_of_lights rfl
+  · obtain ⟨a, b, d, e, rfl⟩ := length4 hc
+    rfl
+
+theorem loadColor_matrix {s : S} {c : List Int} (hc : c.length = 4) :
+    (loadColor s c).vm.matrix = s.vm.matrix := by
+  obtain ⟨a, b, d, e, rfl⟩ := length4 hc
+  rfl
+
+theorem ready_sent {vm : Vm.State} (h : Ready vm) (e : Event) (n : String) (f : Light → Light) :
+    Ready ((vm.emit e).updLight n f) := ⟨h.mode, h.dur, h.time, h.run⟩
+
+theorem HoldsColor.setReg {vm : Vm.State} {c : List Int} (h : HoldsColor vm c) (r : Reg) (v : Val)
+    (h1 : r ≠ .hue) (h2 : r ≠ .saturation) (h3 : r ≠ .brightness) (h4 : r ≠ .kelvin) :
+    HoldsColor (vm.setReg r v) c := by
+  obtain ⟨a, b, d, e, rfl, g1, g2, g3, g4⟩ := h
+  exact ⟨a, b, d, e, rfl, by simp [State.setReg, Ne.symm h1, g1], by simp [State.setReg, Ne.symm h2, g2],
+    by simp [State.setReg, Ne.symm h3, g3], by simp [State.setReg, Ne.symm h4, g4]⟩
+
+/-- `set "n"` -/
+theorem stmt_set_light (n : String) (k : LightKind) (c : List Int) (s : S) (hr : Ready s.vm)
+    (hk : HasKind s.vm n k) (hc : HoldsColor s.vm c) (hin : InRange c) :
+    ∃ s', (∀ f, 3 ≤ f → execStmt f (.action .set (.cons (.light (.str n)) .nil)) s = (.normal, s')) ∧
+      Adds s s' [.setColor n c 0] ∧ HoldsColor s'.vm c := by
+  let s2 : S := (s.setReg .name (.str n)).setReg .operand (.operand .light)
+  have hr2 : Ready s2.vm :=
+    (hr.setReg _ _ (by decide) (by decide) (by decide)).setReg _ _ (by decide) (by decide) (by decide)
+  have hk2 : HasKind s2.vm n k := hk.of_sameDir (sameDir_of_lights rfl)
+  have hc2 : HoldsColor s2.vm c :=
+    (hc.setReg _ _ (by decide) (by decide) (by decide) (by decide)).setReg _ _ (by decide)
+      (by decide) (by decide) (by decide)
+  have hdo := doColor_light s2.vm n k c (by simp [s2, S.setReg, State.setReg])
+    (by simp [s2, S.setReg, State.setReg]) hk2 hr2 hc2 hin
+  refine ⟨{ s2 with vm := (s2.vm.emit (.setColor n c 0)).updLight n fun l => { l with color := c } },
+    ?_, ⟨ready_sent hr2 _ _ _, ?_, rfl⟩, hc2⟩
+  · intro f hf
+    obtain ⟨g, rfl⟩ : ∃ g, f = g + 3 := ⟨f - 3, by omega⟩
+    rw [exec_action_single g .set _ s hr.time hr.run, exec_light]
+    simp only [beq_self_eq_true, if_true]
+    rw [device_running _ _ (by rw [hdo]; exact hr2.run), hdo]
+  · exact SameDir.trans (sameDir_of_lights rfl) (sameDir_updLight _ n _ (fun l => ⟨rfl, rfl⟩))
+
+/-- `on "n"` / `off "n"` -/
+theorem stmt_power_light (n : String) (k : LightKind) (on : Bool) (c : List Int) (s : S)
+    (hr : Ready s.vm) (hk : HasKind s.vm n k) (hc : HoldsColor s.vm c) :
+    ∃ s', (∀ f, 3 ≤ f →
+        execStmt f (.action (if on then .on else .off) (.cons (.light (.str n)) .nil)) s = (.normal, s')) ∧
+      Adds s s' [.setPower n (if on then 65535 else 0) 0] ∧ HoldsColor s'.vm c := by
+  let s2 : S := ((s.setReg .power (.bool on)).setReg .name (.str n)).setReg .operand (.operand .light)
+  have hr2 : Ready s2.vm :=
+    ((hr.setReg _ _ (by decide) (by decide) (by decide)).setReg _ _ (by decide) (by decide)
+      (by decide)).setReg _ _ (by decide) (by decide) (by decide)
+  have hk2 : HasKind s2.vm n k := hk.of_sameDir (sameDir_of_lights rfl)
+  have hc2 : HoldsColor s2.vm c :=
+    ((hc.setReg _ _ (by decide) (by decide) (by decide) (by decide)).setReg _ _ (by decide)
+      (by decide) (by decide) (by decide)).setReg _ _ (by decide) (by decide) (by decide) (by decide)
+  have hdo := doPower_light s2.vm n k (by simp [s2, S.setReg, State.setReg])
+    (by simp [s2, S.setReg, State.setReg]) hk2 hr2
+  have hlevel : s2.vm.powerLevel = if on then 65535 else 0 := by
+    cases on <;> simp [s2, State.powerLevel, S.setReg, State.setReg, Val.truthy]
+  rw [hlevel] at hdo
+  let vm3 : Vm.State := (s2.vm.emit (.setPower n (if on then 65535 else 0) 0)).updLight n
+    (fun l => { l with power := if on then 65535 else 0 })
+  refine ⟨{ s2 with vm := vm3 }, ?_, ⟨ready_sent hr2 _ _ _, ?_, rfl⟩, hc2⟩
+  · intro f hf
+    obtain ⟨g, rfl⟩ : ∃ g, f = g + 3 := ⟨f - 3, by omega⟩
+    rw [exec_action_single g _ _ s hr.time hr.run, exec_light]
+    have e : ∀ x : S, x = s2 → x.device State.doPower = (.normal, { s2 with vm := vm3 }) := by
+      intro x hx
+      rw [hx, device_running _ _ (by rw [hdo]; exact hr2.run), hdo]
+    cases on
+    · exact e _ rfl
+    · exact e _ rfl
+  · exact SameDir.trans (sameDir_of_lights rfl) (sameDir_updLight _ n _ (fun l => ⟨rfl, rfl⟩))
+
+
+/-! ## 1. a plain light -/
+
+theorem plain_runs (n : String) (c : List Int) (p : Int) (k : LightKind) (s : S)
+    (hr : Ready s.vm) (hk : HasKind s.vm n k) (hin : InRange c) (hp : p = 0 ∨ p = 65535) :
+    ∃ s', RunsTo 3 (lightAst (.plain n c p)) s s' ∧
+      Adds s s' [.setColor n c 0, .setPower n p 0] := by
+  have h0 := loadColor_adds hin.1 hr
+  obtain ⟨s2, hx2, ha2, hc2⟩ := stmt_power_light n k (p != 0) c (loadColor s c) h0.ready
+    (hk.of_sameDir h0.dir) (loadColor_holds hin.1)
+  obtain ⟨s3, hx3, ha3, _⟩ := stmt_set_light n k c s2 ha2.ready
+    ((hk.of_sameDir h0.dir).of_sameDir ha2.dir) hc2 hin
+  have hpow : (if (p != 0) = true then (65535 : Int) else 0) = p := by
+    rcases hp with rfl | rfl <;> rfl
+  rw [hpow] at ha2
+  refine ⟨s3, ?_, (h0.trans ha2).trans ha3⟩
+  exact RunsTo.append ((settings_run c s).mono (by omega))
+    (RunsTo.append (RunsTo.single hx2) (RunsTo.single hx3))
+
+/-- **C18_plain_restored.**  The lines the capture writes for a plain light called `n` with raw
+colour `c` (hue, saturation, brightness and kelvin, each anywhere in 0…65535) and power `p`,
+run from ANY state in raw units with no duration and no pending time in which `n` is a known
+light, send exactly `setPower n p 0` and then `setColor n c 0`; a device in any other state
+ends with exactly the captured colour and power. -/
+theorem C18_plain_restored (n : String) (c : List Int) (p : Int) (k : LightKind) (s : S)
+    (hr : Ready s.vm) (hk : HasKind s.vm n k) (hin : InRange c) (hp : p = 0 ∨ p = 65535)
+    (fuel : Nat) (hf : 10 ≤ fuel) (D : DeviceState) (c0 : List Int) (p0 : Int)
+    (hD : D n = some (.plain c0 p0)) :
+    ∃ s', execBlock fuel (Block.ofList (lightAst (.plain n c p))) s = (.normal, s') ∧
+      s'.vm.trace = [.setColor n c 0, .setPower n p 0] ++ s.vm.trace ∧
+      applyTrace [.setColor n c 0, .setPower n p 0] D n = some (.plain c p) := by
+  obtain ⟨s', hrun, hadds⟩ := plain_runs n c p k s hr hk hin hp
+  refine ⟨s', hrun.block fuel (by simpa [lightAst, settingsAst, hin.1] using hf), hadds.trace, ?_⟩
+  simp [applyTrace, applyEvent, upd, hD, Dev.setColor, Dev.setPower]
+
+end C18
 end Bardolph
